@@ -82,7 +82,7 @@ class Lock:
         self.fh.close()
 
 
-def _prune(facts_root, keep=8):
+def _prune(facts_root, keep=int(os.environ.get("VERIF_FACTS_KEEP", "250"))):
     try:
         ds = [os.path.join(facts_root, d) for d in os.listdir(facts_root)]
         ds = [d for d in ds if os.path.isdir(d)]
